@@ -67,6 +67,8 @@ def build(name, src, defines=(), extra=(), libs=(), sanitize=None, opt="-O1", st
     if sanitize:
         cxx = "clang++-14"
         flags += ["-g", "-fno-omit-frame-pointer", "-fsanitize=" + sanitize, "-fno-sanitize-recover=undefined"]
+        if "address" in sanitize:
+            flags += ["-fsanitize-recover=address"]   # run with ASAN_OPTIONS=halt_on_error=0: reports are attached to steps
     flags += inc_flags()
     # content hash of the preprocessed translation unit (all included headers)
     t0 = time.time()
